@@ -22,7 +22,7 @@
 (*           before;                                                       *)
 (*   Switch  nothing changes but the version.                              *)
 (* A rejected event does not stop the trace (the next event is judged from *)
-(* the logged state), it is reported with the clause that failed:          *)
+(* the logged state), it is reported with every clause that failed:        *)
 (*   run_failed           the run did not return rows at all               *)
 (*   table_missing        a grounded predicate below p has no table        *)
 (*   table_unfaithful     its table is not the bag it evaluates to         *)
@@ -44,17 +44,21 @@ vars == <<tr, st, file, out, ver, lastact>>
 Traces == TLCGet(100)
 T == Traces[tr]
 E == T.steps[st]
-V == T.versions[ver]
+V == TLCGet(101)[ver]       \* the prepared versions of the current trace
 Dev == Range(T.dev)
 NoAct == <<"none", "", 0>>
 
+Prepare(k) == TLCSet(101, [i \in 1..Len(Traces[k].versions) |-> Prep(Traces[k].versions[i])])
+
 Start(k) ==
+  /\ Prepare(k)
   /\ tr' = k /\ st' = 1 /\ file' = EmptyFile /\ out' = <<>> /\ ver' = 1
   /\ lastact' = NoAct
 
 Init ==
   /\ TLCSet(100, ndJsonDeserialize(IOEnv.TRACE_FILE))
   /\ TLCSet(1, 0)
+  /\ Prepare(1)
   /\ tr = 1 /\ st = 1 /\ file = EmptyFile /\ out = <<>> /\ ver = 1
   /\ lastact = NoAct
 
@@ -65,32 +69,40 @@ Kind(p) ==
   ELSE IF p \in GPreds(V) THEN "RunGrounded"
   ELSE IF GDeps(V, p) # {} THEN "RunDependant" ELSE "RunPlain"
 
-Report(clause, on, kind, exp) ==
+Report(cs, kind, exp) ==
   /\ PrintT(<<"V", ToJson([tid |-> T.tid, step |-> st, a |-> E.a, p |-> E.p, kind |-> kind,
-                           ok |-> clause = "ok", clause |-> clause, on |-> on, exp |-> exp])>>)
-  /\ IF clause = "ok" THEN TRUE ELSE TLCSet(1, TLCGet(1) + 1)
+                           ok |-> cs = <<>>,
+                           clause |-> IF cs = <<>> THEN "ok" ELSE cs[1].clause,
+                           on |-> IF cs = <<>> THEN <<>> ELSE cs[1].on,
+                           all |-> cs, exp |-> exp])>>)
+  /\ IF cs = <<>> THEN TRUE ELSE TLCSet(1, TLCGet(1) + 1)
 
-(* what the specification expected where the clause failed (diagnostics) *)
-Expected(c) ==
-  IF c.clause = "rows" THEN <<[t |-> E.p, rows |-> EvalAgainst(V, E.p, E.file, Dev)]>>
-  ELSE IF c.clause = "table_unfaithful"
-  THEN LET qs == SetToSeq(c.on)
-       IN [i \in 1..Len(qs) |-> [t |-> TableOf(V, qs[i]),
-                                 rows |-> EvalAgainst(V, qs[i], E.file, Dev)]]
-  ELSE <<>>
+One(clause, on) == <<[clause |-> clause, on |-> on]>>
+
+(* what the specification expected where a clause failed (diagnostics) *)
+Expected(cs) ==
+  FlatMap(cs, LAMBDA c :
+    IF c.clause = "rows" /\ DirectG(V, E.p) \subseteq {g \in GPreds(V) : TableOf(V, g) \in DOMAIN E.file}
+    THEN <<[t |-> E.p, rows |-> EvalAgainst(V, E.p, E.file, Dev)]>>
+    ELSE IF c.clause = "table_unfaithful"
+    THEN LET qs == SetToSeq({q \in c.on : \A g \in DirectG(V, q) : TableOf(V, g) \in DOMAIN E.file})
+         IN [i \in 1..Len(qs) |-> [t |-> TableOf(V, qs[i]),
+                                   rows |-> EvalAgainst(V, qs[i], E.file, Dev)]]
+    ELSE <<>>)
+
+SeqOn(cs) == [i \in 1..Len(cs) |-> [clause |-> cs[i].clause, on |-> SetToSeq(cs[i].on)]]
 
 TraceRun ==
   /\ IsEvent("Run")
   /\ ver = E.ver
   /\ LET kind == Kind(E.p)
      IN IF E.status # "ok"
-        THEN Report("run_failed", <<E.p>>, kind, <<>>)
-        ELSE LET c == RunClauses(V, E.p, file, E.file, E.out, Dev)
+        THEN Report(One("run_failed", <<E.p>>), kind, <<>>)
+        ELSE LET cs == RunClauses(V, E.p, file, E.file, E.out, Dev)
                  again == lastact = <<"Run", E.p, ver>>
-             IN IF c.clause # "ok" THEN Report(c.clause, SetToSeq(c.on), kind, Expected(c))
-                ELSE IF again /\ ~(SameFile(file, E.file) /\ SameBag(out, E.out))
-                THEN Report("not_idempotent", <<E.p>>, kind, <<>>)
-                ELSE Report("ok", <<>>, kind, <<>>)
+                 idem == IF again /\ ~(SameFile(file, E.file) /\ SameBag(out, E.out))
+                         THEN One("not_idempotent", <<E.p>>) ELSE <<>>
+             IN Report(SeqOn(cs) \o idem, kind, Expected(cs))
   /\ file' = E.file
   /\ out' = IF E.status = "ok" THEN E.out ELSE out
   /\ lastact' = IF E.status = "ok" THEN <<"Run", E.p, ver>> ELSE NoAct
@@ -100,8 +112,8 @@ TraceRun ==
 TracePre ==
   /\ IsEvent("Pre")
   /\ IF SameFile(E.file, PrePopulateEffect(file, E.t, E.bag))
-     THEN Report("ok", <<>>, "PrePopulate", <<>>)
-     ELSE Report("env", <<E.t>>, "PrePopulate", <<>>)
+     THEN Report(<<>>, "PrePopulate", <<>>)
+     ELSE Report(One("env", <<E.t>>), "PrePopulate", <<>>)
   /\ file' = E.file
   /\ lastact' = <<"Pre", E.t, ver>>
   /\ st' = st + 1
@@ -110,8 +122,8 @@ TracePre ==
 TraceSwitch ==
   /\ IsEvent("Switch")
   /\ IF SameFile(E.file, file) /\ E.ver \in 1..Len(T.versions)
-     THEN Report("ok", <<>>, "SwitchVersion", <<>>)
-     ELSE Report("env", <<>>, "SwitchVersion", <<>>)
+     THEN Report(<<>>, "SwitchVersion", <<>>)
+     ELSE Report(One("env", <<>>), "SwitchVersion", <<>>)
   /\ ver' = E.ver
   /\ file' = E.file
   /\ lastact' = <<"Switch", "", E.ver>>
